@@ -48,7 +48,8 @@ Required(e, old) ==
    CASE e.ev = "append" -> Append(old, e.s)
      [] e.ev = "extend" -> old \o e.L
      [] e.ev = "remove" -> IF Has(old, e.s) THEN RemoveAt(old, FirstIndex(old, e.s)) ELSE old
-     [] e.ev = "pop"    -> IF e.i >= 0 /\ e.i < Len(old) THEN RemoveAt(old, e.i + 1) ELSE old
+     [] e.ev = "pop"    -> LET j == IF e.i < 0 THEN Len(old) + e.i ELSE e.i      \* python index
+                           IN IF j >= 0 /\ j < Len(old) THEN RemoveAt(old, j + 1) ELSE old
      [] e.ev = "clear"  -> <<>>
      [] e.ev = "copy"   -> old
      [] e.ev = "observe" -> old
